@@ -132,26 +132,145 @@ func solveObligation(c *Ctx, o *Obligation, budget int) {
 			return
 		}
 	}
-	ctx, cancel := context.WithCancel(context.Background())
-	defer cancel()
-	ch := make(chan solveOut, len(solvers))
-	for _, sp := range solvers {
-		go func(sp solverSpec) { ch <- runSolver(ctx, sp, file, budget) }(sp)
+	race := func(sec int) (solveOut, bool) {
+		ctx, cancel := context.WithCancel(context.Background())
+		defer cancel()
+		ch := make(chan solveOut, len(solvers))
+		for _, sp := range solvers {
+			go func(sp solverSpec) { ch <- runSolver(ctx, sp, file, sec) }(sp)
+		}
+		var last solveOut
+		for range solvers {
+			r := <-ch
+			if r.answer == "sat" || r.answer == "unsat" {
+				return r, true
+			}
+			if last.solver == "" || r.answer == "timeout" {
+				last = r
+			}
+		}
+		return last, false
 	}
-	var last solveOut
-	for range solvers {
-		r := <-ch
-		if r.answer == "sat" || r.answer == "unsat" {
-			// models come from z3 when possible: if cvc5 said sat first, accept (model parse is best-effort)
+	// a short race first when the goal can be split into conjuncts: splitting usually beats waiting
+	var pieces []Sx
+	if !o.ExpectSat && !o.noSplit {
+		pieces = splitGoal(c, o.Goal)
+	}
+	firstBudget := budget
+	if len(pieces) > 1 && budget > 6 {
+		firstBudget = 6
+	}
+	last, decided := race(firstBudget)
+	if decided {
+		finish(last)
+		return
+	}
+	last.out = "no solver decided within " + fmt.Sprint(budget) + "s; last: " + last.solver + " " + last.answer + "\n" + last.out
+	// goal splitting: a conjunction (possibly under a quantifier or an implication) that the
+	// solvers cannot decide as a whole is proved conjunct by conjunct
+	if !o.ExpectSat && !o.noSplit {
+		if len(pieces) > 1 {
+			allProved := true
+			total := 0.0
+			for i, pc := range pieces {
+				sub := &Obligation{Name: fmt.Sprintf("%s~%d", o.Name, i+1), Kind: o.Kind, Guard: o.Guard, Goal: pc, Pos: o.Pos, Func: o.Func, noSplit: true}
+				solveObligation(c, sub, budget)
+				total += sub.TimeS
+				if sub.Result != "proved" {
+					allProved = false
+					break
+				}
+			}
+			if allProved {
+				o.Result, o.Solver, o.TimeS = "proved", fmt.Sprintf("split(%d)", len(pieces)), time.Since(t0).Seconds()
+				o.RawOut = fmt.Sprintf("proved as %d conjuncts", len(pieces))
+				return
+			}
+		}
+	}
+	if firstBudget < budget {
+		if r, ok := race(budget); ok {
 			finish(r)
 			return
 		}
-		if last.solver == "" || r.answer == "timeout" {
-			last = r
-		}
 	}
-	last.out = "no solver decided within " + fmt.Sprint(budget) + "s; last: " + last.solver + " " + last.answer + "\n" + last.out
 	finish(last)
+}
+
+// splitGoal: top-level conjuncts of a goal, looking through definitions, implications and
+// universal quantifiers
+func splitGoal(c *Ctx, goal Sx) []Sx {
+	expand := func(t Sx) Sx {
+		for k := 0; k < 4; k++ {
+			d, ok := c.declIdx[t]
+			if !ok || !strings.HasPrefix(d.text, "(define-fun "+t+" () Bool ") {
+				break
+			}
+			t = strings.TrimSuffix(strings.TrimPrefix(d.text, "(define-fun "+t+" () Bool "), ")")
+		}
+		return t
+	}
+	var split func(n *sexp, depth int) []Sx
+	split = func(n *sexp, depth int) []Sx {
+		if n.list == nil {
+			if depth < 6 {
+				if e := expand(n.atom); e != n.atom {
+					if ss := parseSexps(e); len(ss) == 1 {
+						return split(ss[0], depth+1)
+					}
+				}
+			}
+			return []Sx{n.String()}
+		}
+		if len(n.list) == 0 {
+			return []Sx{n.String()}
+		}
+		switch n.list[0].atom {
+		case "and":
+			var out []Sx
+			for _, ch := range n.list[1:] {
+				out = append(out, split(ch, depth)...)
+			}
+			return out
+		case "=>":
+			if len(n.list) == 3 {
+				var out []Sx
+				for _, pc := range split(n.list[2], depth) {
+					out = append(out, "(=> "+n.list[1].String()+" "+pc+")")
+				}
+				return out
+			}
+		case "forall":
+			if len(n.list) == 3 {
+				body := n.list[2]
+				if len(body.list) >= 2 && body.list[0].atom == "!" {
+					body = body.list[1]
+				}
+				pcs := split(body, depth)
+				if len(pcs) > 1 {
+					var out []Sx
+					bv := ""
+					if len(n.list[1].list) == 1 && len(n.list[1].list[0].list) == 2 {
+						bv = n.list[1].list[0].list[0].atom
+					}
+					for _, pc := range pcs {
+						if pat := selectPattern(pc, bv); bv != "" && pat != "" {
+							out = append(out, "(forall "+n.list[1].String()+" (! "+pc+" :pattern ("+pat+")))")
+						} else {
+							out = append(out, "(forall "+n.list[1].String()+" "+pc+")")
+						}
+					}
+					return out
+				}
+			}
+		}
+		return []Sx{n.String()}
+	}
+	ss := parseSexps(expand(goal))
+	if len(ss) != 1 {
+		return nil
+	}
+	return split(ss[0], 0)
 }
 
 // parseValues reads the (get-value ...) answer following "sat"
